@@ -12,8 +12,8 @@ def claim(pid, text, note, technique, design_ref, category=LEVEL_OTHER):
 PROOF_PLUS_BOUNDED = ('contract-based deductive verification of the real functions (pyvc: VCs generated from /repo source every run, '
                       'discharged by z3) + the same contracts evaluated at run time as bounded stand-in')
 TB = ('trusted: z3, our VC generator pyvc and its encoding of Python (DESIGN 2.2, 6, 11); value-mode callers do not check the heap preconditions of '
-      'SCFG._sync_exiting (proved separately in heap mode); tier-B functions (loop_restructure_helper, restructure_loop/branch, extract_region, update_exiting, '
-      'scc, _imm_doms, SCFG.__iter__, SCFGIO, ast_transforms, rendering) are checked only within the stated bounds')
+      'SCFG._sync_exiting (proved separately in heap mode); tier-B functions (loop_restructure_helper, restructure_loop/branch, extract_region, '
+      'scc, _imm_doms, SCFGIO, ast_transforms, rendering) are checked only within the stated bounds')
 
 claim('C01', 'Mixed: the arc-preservation facts of the edit primitives (insert_block, SyntheticBranch.replace_jump_targets, jump_targets) are proved for all '
       'inputs; the whole-pipeline claim path_equiv(original, result) is decided per instance by exhaustive product exploration (W1 by name, W2 by region) '
@@ -27,9 +27,10 @@ claim('C03', 'Bounded at property level: structured(H) (acyclic per level withou
       'modular over _doms and is_reachable_dfs), find_tail_blocks, _doms/_post_doms (= path-based dominance).',
       TB, 'property-level contract checked on the enumerated scope; supporting function contracts proved by pyvc/z3', '5.C03')
 claim('C04', 'Mixed: key/frame invariants of the edit primitives proved (value mode); SCFG._sync_exiting proved in heap mode for every nesting depth (every sub-graph keeps its keys, '
-      'only jump targets and the value tables that follow them change, the exiting block of the argument is re-targeted position by position, arity of non-leaf levels kept, no exception); '
+      'only jump targets and the value tables that follow them change, the exiting block of the argument is re-targeted position by position, arity of non-leaf levels kept, no exception), '
+      'update_exiting likewise (recursive: header renamed along the whole exiting chain), and the hierarchy view of insert_block (the exiting block of every region predecessor is re-targeted with it); '
       'WF(H) evaluated after every stage on the enumerated scope and the hierarchy clause at every edit call incl. region predecessors (bounded).',
-      TB + '; that the edit primitives call _sync_exiting on every re-targeted region predecessor is bounded only (run-time hierarchy clause)', PROOF_PLUS_BOUNDED, '5.C04')
+      TB + '; for insert_block_and_control_blocks / join_* the call of _sync_exiting on every region predecessor is bounded only (run-time hierarchy clause); extract_region is bounded', PROOF_PLUS_BOUNDED, '5.C04')
 claim('C05', 'Mixed: frames of the edit primitives proved (replace = functional update keeping class tag and every other field; untouched blocks identical); '
       'conserved(original, result) evaluated after every stage with plain, bytecode and AST payloads (bounded).', TB, PROOF_PLUS_BOUNDED, '5.C05')
 claim('C06', 'Mixed: the table invariant (every entry names a successor, every successor has an entry, keys preserved under position-wise renaming) is proved for '
@@ -72,8 +73,9 @@ claim('C13', 'Mixed, mostly proved: find_head, find_headers_and_entries (top-lev
 claim('C14', 'Mixed, mostly proved: all value-level clauses of insert_block and its four typed wrappers, insert_block_and_control_blocks (each re-routed arc gets its own '
       'assignment block whose constant the new head maps back to the arc\'s original target), join_returns, join_tails_and_exits, add_block, remove_blocks and '
       'SyntheticBranch.replace_jump_targets are discharged for all inputs (exact re-routing, order of remaining successors, positional replacement, frame); '
-      'SCFG._sync_exiting (re-targeting of the exiting chain of a region predecessor) is proved in heap mode for every nesting depth; that the primitives apply it to every region '
-      'predecessor (hierarchy clause, evaluated at every internal call and on generated calls with region predecessors) and edit sequences are bounded.',
+      'SCFG._sync_exiting (re-targeting of the exiting chain of a region predecessor) is proved in heap mode for every nesting depth, and so is the hierarchy view of insert_block '
+      '(every region predecessor\'s exiting block is re-targeted with it); for insert_block_and_control_blocks and join_* the hierarchy clause (evaluated at every internal call and on '
+      'generated calls with region predecessors) and edit sequences are bounded.',
       TB + '; R3 (predecessor with a declared back edge) and R13 are recorded findings, proved on their complement',
       PROOF_PLUS_BOUNDED, '5.C14')
 claim('C15', 'Bounded + finite: registry coverage and a per-class field round trip are decided completely over the block classes (E3); dictionary/YAML round trips and '
@@ -81,8 +83,10 @@ claim('C15', 'Bounded + finite: registry coverage and a per-class field round tr
       'yaml trusted; no deductive contract on SCFGIO (work-list over a heterogeneous hierarchy); R4b (PythonASTBlock not serialisable) is a recorded finding',
       'finite case split over block classes (E3) + round-trip contract evaluated on the enumerated scope', '5.C15')
 claim('C16', 'Mixed: ConcealedRegionView.region_view_iterator is proved for all levels whose regions mirror their exiting blocks (the C04 clause, as precondition): it yields '
-      'exactly the blocks and regions of the level reachable from the start, each once (closure principle R-ind); SCFG.__iter__ is bounded: list(scfg) and the view of every '
-      'level of every enumerated result, and of all small flat digraphs with duplicate targets, compared with the hierarchy (exactly once, head first, after a predecessor).', TB,
+      'exactly the blocks and regions of the level reachable from the start, each once (closure principle R-ind); SCFG.__iter__ is proved modularly (the nested iteration of a '
+      'region\'s sub-graph is used through this same contract; names unique across the hierarchy as precondition): every reachable block of the level once, every region followed by its '
+      'hierarchy; bounded: list(scfg) and the view of every level of every enumerated result, and of all small flat digraphs with duplicate targets, compared with the hierarchy '
+      '(exactly once, head first, after a predecessor).', TB,
       PROOF_PLUS_BOUNDED, '5.C16')
 
 NOT_YET = 'check not built yet in this session (see DESIGN.md section 9 for the order of work)'
